@@ -33,12 +33,18 @@ def run(tier, rep):
         res = run_gosym(lr.cfg(fs, 'harnessC11GenericBody', tier), sc, 'genericbody', timeout=4 * 3600)
         merge_gosym(rep, res, 'generic tree: one rule `grammar IDENT IDENT = <body> ;` with every body of <= %d tokens' % KB)
         lr.handle(rep, res, fs, sc, 'C11')
+        res = run_gosym(lr.cfg(fs, 'harnessC11GenericDirective', tier), sc, 'genericdir', timeout=4 * 3600)
+        merge_gosym(rep, res, 'generic tree: `grammar IDENT @left TOKEN` followed by every sequence of <= %d tokens' % (KB + 1))
+        lr.handle(rep, res, fs, sc, 'C11')
         afs, extra = lr.ast_files(sc, astK=K, astBodyK=KB, lrBodyK=KB)
         res = run_gosym(lr.ast_cfg(afs, extra, 'harnessC11Typed', tier), sc, 'typed', timeout=4 * 3600)
         merge_gosym(rep, res, 'typed tree: ast.Parse (real actions) vs independent builder, every sequence of <= %d tokens' % K)
         handle_ast(rep, res, afs, extra, sc, 'C11')
         res = run_gosym(lr.ast_cfg(afs, extra, 'harnessC11TypedBody', tier), sc, 'typedbody', timeout=4 * 3600)
         merge_gosym(rep, res, 'typed tree: one rule with every body of <= %d tokens' % KB)
+        handle_ast(rep, res, afs, extra, sc, 'C11')
+        res = run_gosym(lr.ast_cfg(afs, extra, 'harnessC11TypedDirective', tier), sc, 'typeddir', timeout=4 * 3600)
+        merge_gosym(rep, res, 'typed tree: `grammar IDENT @left TOKEN` followed by every sequence of <= %d tokens' % (KB + 1))
         handle_ast(rep, res, afs, extra, sc, 'C11')
         rep.assumptions += [
             'token kinds symbolic over the 22 kinds; lexemes are distinct placeholders (predefined names for PREDEF), positions distinct',
